@@ -214,23 +214,30 @@ fn perm_index(p: &[u8]) -> usize {
 
 fn shuffle_fair(len: u8, seeds: u32, base: u64) -> CaseResult {
     let mut sm = SplitMix(base);
-    shuffle_fair_over(len, seeds, "random 64-bit", false, move |_| sm.next())?;
+    shuffle_fair_over(len, seeds, "random 64-bit", 0, move |_| sm.next())?;
     // the same population of seeds, but the generator has been used before the shuffle (a u8, an f64 and a u32 draw): state that
     // earlier draws leave behind (cached halves, spare values) must not bias the shuffle
     let mut sm = SplitMix(base ^ 0x5EED_5EED);
-    shuffle_fair_over(len, seeds, "random 64-bit (generator used for a u8, an f64 and a u32 draw before the shuffle)", true, move |_| sm.next())
+    shuffle_fair_over(len, seeds, "random 64-bit (generator used for a u8, an f64 and a u32 draw before the shuffle)", 1, move |_| sm.next())?;
+    // ... and generators that have already shuffled another slice (of 2, 4, 6, 3 or 5 elements, by seed index)
+    let mut sm = SplitMix(base ^ 0x0DD5_EED5);
+    shuffle_fair_over(len, seeds, "random 64-bit (generator used for an earlier shuffle of 2..6 elements)", 2, move |_| sm.next())
 }
 
-fn shuffle_fair_over(len: u8, seeds: u32, what: &str, warm: bool, mut seed_of: impl FnMut(u64) -> u64) -> CaseResult {
+fn shuffle_fair_over(len: u8, seeds: u32, what: &str, warm: u8, mut seed_of: impl FnMut(u64) -> u64) -> CaseResult {
     let n = len as usize;
     let fact: usize = (1..=n).product();
     let mut counts = vec![0u32; fact];
     for k in 0..seeds {
         let mut r = Rng::from_seed(seed_of(k as u64));
-        if warm {
+        if warm == 1 {
             let _ = r.next::<u8, _>(..);
             let _ = r.next::<f64, _>(0.0..1.0);
             let _ = r.next::<u32, _>(0..3);
+        }
+        if warm == 2 {
+            let mut first: Vec<u8> = (0..[2u8, 4, 6, 3, 5][k as usize % 5]).collect();
+            r.shuffle(&mut first);
         }
         let mut v: Vec<u8> = (0..len).collect();
         r.shuffle(&mut v);
@@ -433,7 +440,7 @@ fn run_case(c: &Case) -> CaseResult {
                 return Ok(CaseStats::default());
             }
             let (start, stride) = (*start, *stride);
-            shuffle_fair_over(*len, *seeds, &format!("seeds {} + k*{}", start, stride), false, move |k| start.wrapping_add(k.wrapping_mul(stride)))
+            shuffle_fair_over(*len, *seeds, &format!("seeds {} + k*{}", start, stride), 0, move |k| start.wrapping_add(k.wrapping_mul(stride)))
         }
         Case::Period { len, seed } => period(*len, *seed),
         Case::PeriodTy { ty, len, seed } => period_ty(*ty, *len, *seed),
@@ -589,7 +596,7 @@ fn main() {
     let maxlen = ctx.n(6, 7) as u8;
     let mut base = ctx.sub_rng("shuffle-fair");
     let fair: Vec<Case> = (2..=maxlen).map(|len| Case::ShuffleFair { len, seeds: if len == 7 { nseeds.max(1_500_000) } else { nseeds }, base: base.next() }).collect();
-    ctx.exhaustive("shuffle-fair", "rand-case", "lengths 2..=6 (7 in the thorough tier), random 64-bit seeds; fresh generators and generators already used for a u8, an f64 and a u32 draw", false, fair, run_case);
+    ctx.exhaustive("shuffle-fair", "rand-case", "lengths 2..=6 (7 in the thorough tier), random 64-bit seeds; fresh generators, generators already used for a u8, an f64 and a u32 draw, and generators that have shuffled another slice before", false, fair, run_case);
     // the seeds people actually use: consecutive small numbers and arithmetic families. (Families that vary only bits >= 30 of the
     // seed are not a population of 10^5 seeds for an LCG - its low state bits never see them - and are not judged: DESIGN 9.7.)
     let mut fam = Vec::new();
